@@ -274,20 +274,29 @@ def make_maps(case, reg):
 
 
 def build_sequence(case):
-    """-> (seq, env, outcomes): executes the program; calls that raise are
-    skipped (their exception class is recorded)."""
+    """-> (seq, env, outcomes): the sequence produced by the successful calls
+    of the program.  A call that raises may leave traces behind (that is
+    C09's subject, not this property's): the sequence is then rebuilt from
+    the calls that succeeded so far."""
     dev = build_device(case["device"])
-    reg = build_register(case["register"])
-    seq = Sequence(reg, dev)
-    env: dict = {}
-    maps = make_maps(case, reg)
+
+    def fresh():
+        reg = build_register(case["register"])
+        return Sequence(reg, dev), {}, make_maps(case, reg)
+
+    seq, env, maps = fresh()
     outcomes = []
+    good = []
     for op in case["ops"]:
         try:
             exec_op(seq, op, env, maps)
             outcomes.append("ok")
+            good.append(op)
         except Exception as e:  # noqa: BLE001
             outcomes.append(type(e).__name__)
+            seq, env, maps = fresh()
+            for g in good:
+                exec_op(seq, g, env, maps)
     return seq, env, outcomes
 
 
